@@ -64,9 +64,14 @@ def Ex.fromStore (x : Ex) : Bool :=
     -- no token (empty body): from the store iff the cache says so or nobody was asked
     (statusValues x.res.hdr).any (fun v => v = (str% "HIT") || v = (str% "STALE") || v = (str% "REVALIDATED"))
 
+/-- the foreground call of this exchange was answered 304 AND that call validates the entry read
+    (`Spec.isValidationOf`: it carried the stored validators and no other precondition) -/
 def Ex.got304 (h : Hist) (x : Ex) : Bool :=
   match x.fgReply h with
-  | some rp => rp.resp.status = 304
+  | some rp => rp.resp.status = 304 &&
+      (match x.entry, x.fgCalls.getLast? with
+       | some e, some c => Spec.isValidationOf e.resp.header c.hdr
+       | _, _ => true)
   | none => false
 
 def isPlainGet (ri : ReqIn) : Bool := ri.method = sGET && !(Header.has ri.req.header sRange)
@@ -111,6 +116,7 @@ def Hist.ghostAt (h : Hist) (n : Nat) : Option Spec.Stored :=
               if rp.kind != "resp" then none
               else if rp.resp.status = 304 then
                 ((alookup e.key m).join).map fun old =>
+                  if !Spec.isValidationOf old.header c.hdr then old else   -- not a validation result: nothing changes
                   { old with header := Spec.merge304 canonicalHeaderKey old.header (dateFixed h rp.resp.header c.t1),
                              requestTime := c.t0, responseTime := c.t1 }
               else some { status := rp.resp.status, header := dateFixed h rp.resp.header c.t1, requestTime := c.t0, responseTime := c.t1 }
@@ -213,6 +219,27 @@ def replyForbidsStoring (ri : ReqIn) (rp : ReplyIn) : Option String :=
   else if rp.bodyFail ≥ 0 && !rp.resp.body.isEmpty then some "body could not be read completely"
   else none
 
+/-- an entry write caused by a 304: the 304 must be the answer to a validation request for that entry
+    (one that carried the stored validators and no precondition of the client's own); otherwise it is
+    the origin's answer to the client and nothing of it may be written -/
+def notAValidation (h : Hist) (e : StoreEv) : Option String :=
+  match (h.calls e.n e.stream).getLast? with
+  | none => none
+  | some c =>
+    if c.outcome != "resp" then none else
+    match h.reply e.n c.k with
+    | none => none
+    | some rp =>
+      if rp.resp.status ≠ 304 then none else
+      -- the entry as it was read in this stream before the write
+      match ((h.stores e.n e.stream).filter (·.idx < e.idx)).reverse.findSome? (fun s => match s.op, s.result, s.val with
+          | "get", "ok", .ent en true => if en.id = e.key then some en else none
+          | _, _, _ => none) with
+      | none => none
+      | some old =>
+        if Spec.isValidationOf old.resp.header c.hdr then none
+        else some s!"exchange {e.n} ({e.stream}): a 304 that answers the client's own precondition (request [{showHdrs c.hdr}], stored validators [{showHdrs (old.resp.header.filter fun p => p.1 = sETag || p.1 = sLastModified)}]) was written into the stored response"
+
 def monC06 (h : Hist) : Option String :=
   first? [
     -- every entry write: the response whose body it carries may be stored
@@ -223,8 +250,10 @@ def monC06 (h : Hist) : Option String :=
           (match tokenOf en.resp.body with
           | some (n, k) =>
             (match h.reqs.find? (·.n = n), h.reply n k with
-            | some ri, some rp => (replyForbidsStoring ri rp).map fun why =>
-                s!"exchange {e.n} ({e.stream}): stored the response of exchange {n} although: {why}"
+            | some ri, some rp =>
+              (match replyForbidsStoring ri rp with
+              | some why => some s!"exchange {e.n} ({e.stream}): stored the response of exchange {n} although: {why}"
+              | none => notAValidation h e)
             | _, _ => none)
           | none =>
             -- body-less entry: find the reply of this stream's call
